@@ -682,6 +682,40 @@ pub fn longrun_ops(cfg: &Cfg, pattern: &str, n: usize) -> Vec<Op> {
             ops.push(Op::Iter);
             return ops.into_iter().filter(|o| s || !matches!(o, Op::Sync)).collect();
         }
+        // more matches than any batch for one invalidate_entries_if / invalidate_all call
+        "massinval" => {
+            for i in 0..n {
+                ops.push(Op::Ins(i as u8, 1));
+            }
+            ops.push(Op::Sync);
+            ops.push(Op::Adv(1));
+            ops.push(if cfg.kind == Kind::U { Op::InvIf(Pred::All) } else { Op::InvAll });
+            for k in [0, n / 2, n - 1, n - 30] {
+                ops.push(Op::Get(k as u8));
+                ops.push(Op::Con(k as u8));
+            }
+            ops.push(Op::Iter);
+            ops.push(Op::Sync);
+            ops.push(Op::Iter);
+            return ops.into_iter().filter(|o| s || !matches!(o, Op::Sync)).collect();
+        }
+        // one heavy, popular newcomer that needs more victims than the inline capacity of
+        // the victim list (8): n unit-weight residents, newcomer of weight n - 1
+        "manyvictims" => {
+            for i in 0..n {
+                ops.push(Op::Ins(i as u8, 1));
+            }
+            ops.push(Op::Sync);
+            for _ in 0..3 {
+                ops.push(Op::Get(n as u8));
+            }
+            ops.push(Op::Sync);
+            ops.push(Op::Ins(n as u8, (n - 1) as u8));
+            ops.push(Op::Sync);
+            ops.push(Op::Get(n as u8));
+            ops.push(Op::Iter);
+            return ops.into_iter().filter(|o| s || !matches!(o, Op::Sync)).collect();
+        }
         // more entries than one purge batch expire at the same reading
         "massexpiry" => {
             for i in 0..n {
